@@ -529,10 +529,47 @@ func lean(d desc) string {
 		d.name, d.key, d.val, d.addOp, d.growMul, d.growAdd, d.evictLast, d.evictFirst, d.capGuard, d.cvScan, b(d.refuseEmpty), b(d.blindEmpty), b(d.addFreshNew))
 }
 
+func irFile(dir string, names []string, ns string) string {
+	var sb strings.Builder
+	sb.WriteString("-- GENERATED by xlate/c09 (-ir) from util/hmap/*.go — do not edit\n")
+	sb.WriteString("import Golib.HMap.IR\n\nnamespace " + ns + "\nopen HMap HMap.IR\n\n")
+	for _, n := range names {
+		f, err := parser.ParseFile(fset, filepath.Join(dir, n+".go"), nil, 0)
+		if err != nil {
+			fmt.Fprintln(os.Stderr, "xlate/c09:", err)
+			continue
+		}
+		ms, _ := methods(f, n)
+		pick := func(cands ...string) *ast.FuncDecl {
+			for _, c := range cands {
+				if ms[c] != nil {
+					return ms[c]
+				}
+			}
+			return nil
+		}
+		emit := func(suffix string, fd *ast.FuncDecl, isRemove bool) {
+			if fd == nil {
+				return
+			}
+			sb.WriteString(fmt.Sprintf("/-- %s.%s -/\ndef %s_%s : List TSt :=\n  %s\n\n", n, fd.Name.Name, n, suffix, methodIR(fd, isRemove)))
+		}
+		emit("put", pick("put", "unipoint", "Put"), false)
+		emit("add", pick("add", "_add"), false)
+		emit("addNoOver", pick("addNoOver"), false)
+		emit("addIfExist", pick("addIfExist"), false)
+		emit("remove", pick("remove", "Remove"), true)
+		sb.WriteString(fmt.Sprintf("/-- %s.rehash -/\ndef %s_rehash : RehashFacts :=\n  %s\n\n", n, n, rehashFacts(ms["rehash"])))
+	}
+	sb.WriteString("end " + ns + "\n")
+	return sb.String()
+}
+
 func main() {
 	repo := flag.String("repo", "/repo", "repository root")
 	out := flag.String("out", "", "output Lean file")
 	set := flag.String("set", "linked", "linked | plain")
+	ir := flag.Bool("ir", false, "emit the statement-level IR of put/add/remove/rehash instead of the descriptors")
 	flag.Parse()
 	dir := filepath.Join(*repo, "util", "hmap")
 	names, ns, isPlain := linked, "Gen.C09", false
@@ -540,15 +577,19 @@ func main() {
 		names, ns, isPlain = plain, "Gen.C12", true
 	}
 	var sb strings.Builder
-	sb.WriteString("-- GENERATED by xlate/c09 (-set " + *set + ") from util/hmap/*.go — do not edit\n")
-	sb.WriteString("import Golib.HMap.Types\n\nnamespace " + ns + "\nopen HMap\n\n")
-	var defs []string
-	for _, n := range names {
-		d := extract(dir, n, isPlain)
-		sb.WriteString("def " + n + " : TypeDesc :=\n  " + lean(d) + "\n\n")
-		defs = append(defs, n)
+	if *ir {
+		sb.WriteString(irFile(dir, names, ns+"IR"))
+	} else {
+		sb.WriteString("-- GENERATED by xlate/c09 (-set " + *set + ") from util/hmap/*.go — do not edit\n")
+		sb.WriteString("import Golib.HMap.Types\n\nnamespace " + ns + "\nopen HMap\n\n")
+		var defs []string
+		for _, n := range names {
+			d := extract(dir, n, isPlain)
+			sb.WriteString("def " + n + " : TypeDesc :=\n  " + lean(d) + "\n\n")
+			defs = append(defs, n)
+		}
+		sb.WriteString("def types : List TypeDesc := [" + strings.Join(defs, ", ") + "]\n\nend " + ns + "\n")
 	}
-	sb.WriteString("def types : List TypeDesc := [" + strings.Join(defs, ", ") + "]\n\nend " + ns + "\n")
 	if *out == "" {
 		fmt.Print(sb.String())
 		return
